@@ -2070,15 +2070,23 @@ func (m *metadataAPI) checkExpandISRPreconditions(op *proto.RaftLog) error {
 }
 
 // checkChangeLeaderPreconditions returns a function which checks if the
-// partition whose leader is being changed exists and if the given leader and
-// leader epoch, i.e. the ones being replaced, are still current. If the stream
-// doesn't exist, it returns ErrStreamNotFound. If the partition doesn't exist,
-// it returns ErrPartitionNotFound. If the leader or leader epoch are not
-// current, it returns an error. Otherwise, it returns nil.
+// partition whose leader is being changed exists, if the given leader and
+// leader epoch, i.e. the ones being replaced, are still current, and if the
+// new leader is in the ISR. If the stream doesn't exist, it returns
+// ErrStreamNotFound. If the partition doesn't exist, it returns
+// ErrPartitionNotFound. If the leader or leader epoch are not current or the
+// new leader has been removed from the ISR, it returns an error. Otherwise, it
+// returns nil.
 func (m *metadataAPI) checkChangeLeaderPreconditions(leader string, epoch uint64) func(*proto.RaftLog) error {
 	return func(op *proto.RaftLog) error {
 		req := op.ChangeLeaderOp
-		return m.checkPartitionLeader(req.Stream, req.Partition, leader, epoch)
+		if err := m.checkPartitionLeader(req.Stream, req.Partition, leader, epoch); err != nil {
+			return err
+		}
+		if !m.GetPartition(req.Stream, req.Partition).inISR(req.Leader) {
+			return fmt.Errorf("replica %s is not in the ISR", req.Leader)
+		}
+		return nil
 	}
 }
 
